@@ -266,7 +266,7 @@ func streamDisp(c *Ctx) {
 	}
 	r := c.Rng
 	kinds := []string{"unary", "client", "server", "bidi"}
-	codecSets := []string{"proto,json", "proto,json,raw", "proto,json,a,b", "proto,json,json2", "proto,json,raw+v2", "proto,json,,x"}
+	codecSets := []string{"proto,json", "proto,json,raw", "proto,json,a,b", "proto,json,json2", "proto,json,raw+v2", "proto,json,,x", "proto,json,grpc,grpc-web", "proto,json,grpc+json,grpc-web+proto"}
 	methods := []string{"POST", "GET", "PUT", "post", "OPTIONS", "HEAD", "DELETE", "PATCH", "POSTX", "POS", "CONNECT", "TRACE"}
 	versions := [][2]int{{1, 0}, {1, 1}, {2, 0}, {3, 0}}
 	procedure := "/acme.v1.Svc/Do"
